@@ -50,7 +50,7 @@ def gen_int(rng):
     else:
         ch = rng.choice('aZ7*')
         lit, val = '`' + ch, ord(ch)
-    tail = rng.choice(['', ' x', 'x', ' ', '.5']) if k != 3 else rng.choice(['', 'x'])
+    tail = rng.choice(['', ' x', 'x', ' ', '.5']) if k != 3 else rng.choice(['', 'x', ' x', ' '])      # one optional space follows every kind of constant
     if k == 2 and tail[:1] in 'abcdefABCDEF':
         tail = ' ' + tail
     return dict(signs=signs, lit=lit, val=val, tail=tail)
